@@ -122,6 +122,15 @@ bool XMLFormatter::inEscapeList(const XMLFormatter::EscapeFlags escStyle
         {
             return true;
         }
+        else if (toCheck == chNEL || toCheck == chLineSeparator)
+        {
+            //
+            //  These two end a line in XML 1.1: written as they are, they
+            //  come back as a line feed (a space in an attribute value).
+            //  So they need a reference wherever the carriage return does.
+            //
+            return (escStyle == AttrEscapes || escStyle == CharEscapes);
+        }
         else
         {
             return false;
